@@ -53,6 +53,17 @@ func readerFamily(tier universe.Tier) *family {
 			mk(fd(1, D, universe.MapOf(universe.StPtr(in), universe.ListOf(universe.StPtr(in))))),
 			mk(fd(1, D, sc(ref.KI32)), fd(2, D, sc(ref.KString)), fd(3, O, universe.StPtr(in)), fd(4, D, universe.SetOf(sc(ref.KDouble)))),
 		)
+		// nested structs made of several fixed-size, always-written fields (what size/count shortcuts key on)
+		fx := func() *ref.Struct {
+			return mk(fd(1, D, sc(ref.KI64)), fd(2, D, sc(ref.KDouble)), fd(3, D, sc(ref.KI32)))
+		}
+		f.items = append(f.items,
+			mk(fd(1, D, universe.ListOf(universe.StPtr(fx())))),
+			mk(fd(1, D, universe.ListOf(universe.StVal(fx()))), fd(2, D, sc(ref.KI8))),
+			mk(fd(1, D, universe.MapOf(sc(ref.KI32), universe.StPtr(fx())))),
+			mk(fd(1, D, universe.MapOf(sc(ref.KString), universe.StVal(fx())))),
+			mk(fd(1, D, universe.SetOf(universe.StPtr(fx()))), fd(2, O, universe.StPtr(fx()))),
+		)
 		withUnk := mk(fd(1, D, sc(ref.KI32)), fd(4, D, universe.StPtr(in)))
 		withUnk.Unknown = true
 		f.items = append(f.items, withUnk)
@@ -72,10 +83,41 @@ func evolveTypes() []*ref.Type {
 }
 
 type schemaEdit struct {
-	Kind string // add | remove | retype | renumber
-	Idx  int
-	T    *ref.Type
-	ID   uint16
+	Kind  string // add | remove | retype | renumber | inner-remove | inner-add
+	Idx   int
+	T     *ref.Type
+	ID    uint16
+	Inner int // inner-remove: index of the field of the nested struct
+}
+
+// innerStruct returns the struct type nested (directly or in containers) in t.
+func innerStruct(t *ref.Type) *ref.Struct {
+	switch {
+	case t == nil:
+		return nil
+	case t.Kind == ref.KStruct:
+		return t.St
+	case t.Kind == ref.KMap:
+		if s := innerStruct(t.Elem); s != nil {
+			return s
+		}
+		return innerStruct(t.Key)
+	}
+	return innerStruct(t.Elem)
+}
+
+// withInner deep-copies t, replacing every nested struct by fn(struct).
+func withInner(t *ref.Type, fn func(*ref.Struct) *ref.Struct) *ref.Type {
+	if t == nil {
+		return nil
+	}
+	c := *t
+	if t.St != nil {
+		c.St = fn(t.St)
+	}
+	c.Elem = withInner(t.Elem, fn)
+	c.Key = withInner(t.Key, fn)
+	return &c
 }
 
 func (e schemaEdit) String() string {
@@ -86,6 +128,10 @@ func (e schemaEdit) String() string {
 		return fmt.Sprintf("remove field #%d", e.Idx)
 	case "retype":
 		return fmt.Sprintf("retype field #%d to %s", e.Idx, e.T)
+	case "inner-remove":
+		return fmt.Sprintf("remove field #%d of the struct nested in field #%d", e.Inner, e.Idx)
+	case "inner-add":
+		return fmt.Sprintf("add %d:%s to the struct nested in field #%d", e.ID, e.T, e.Idx)
 	}
 	return fmt.Sprintf("renumber field #%d to %d", e.Idx, e.ID)
 }
@@ -135,6 +181,17 @@ func editsOf(s *ref.Struct) []schemaEdit {
 				es = append(es, schemaEdit{Kind: "renumber", Idx: i, ID: id})
 			}
 		}
+		// the writer's version of a nested struct may lack or add fields too
+		if in := innerStruct(s.Fields[i].Type); in != nil {
+			for j := range in.Fields {
+				es = append(es, schemaEdit{Kind: "inner-remove", Idx: i, Inner: j})
+			}
+			for _, t := range evolveTypes()[:8] {
+				if !usedID(in, 77) {
+					es = append(es, schemaEdit{Kind: "inner-add", Idx: i, ID: 77, T: t})
+				}
+			}
+		}
 	}
 	return es
 }
@@ -166,6 +223,24 @@ func applyEdit(s *ref.Struct, e schemaEdit) *ref.Struct {
 	case "renumber":
 		if e.Idx < len(w.Fields) && !usedID(w, e.ID) {
 			w.Fields[e.Idx].ID = e.ID
+		}
+	case "inner-remove", "inner-add":
+		if e.Idx < len(w.Fields) {
+			w.Fields[e.Idx].Type = withInner(w.Fields[e.Idx].Type, func(in *ref.Struct) *ref.Struct {
+				c := &ref.Struct{}
+				for j, f := range in.Fields {
+					if e.Kind == "inner-remove" && j == e.Inner {
+						continue
+					}
+					cf := *f
+					c.Fields = append(c.Fields, &cf)
+				}
+				if e.Kind == "inner-add" && !usedID(c, e.ID) {
+					c.Fields = append(c.Fields, &ref.Field{ID: e.ID, Req: ref.ReqDefault, Type: e.T})
+					c.SortFields()
+				}
+				return c
+			})
 		}
 	}
 	w.SortFields()
